@@ -21,7 +21,7 @@ _EDGE = re.compile(r'^(-?\d+) -> (-?\d+) \[label="([^"]*)"')
 _NODE = re.compile(r'^(-?\d+) \[label="')
 
 
-def dump_graph(module: str, cfg_text: str, timeout: int = 1800, initials: bool = False) -> Any:
+def dump_graph(module: str, cfg_text: str, timeout: int = 1800, initials: bool = False, labels: bool = False) -> Any:
     """Returns (initial node, adjacency: node -> [(action label, node)], number of states); with `initials`
     the first component is the list of (initial node, its state text) instead."""
     d = tlc.scratch("graph-" + module)
@@ -40,6 +40,7 @@ def dump_graph(module: str, cfg_text: str, timeout: int = 1800, initials: bool =
         adj: Dict[str, List[Tuple[str, str]]] = {}
         first: Optional[str] = None
         inits: List[Tuple[str, str]] = []
+        texts: Dict[str, str] = {}
         nodes = 0
         with open(dot) as f:
             for line in f:
@@ -54,9 +55,13 @@ def dump_graph(module: str, cfg_text: str, timeout: int = 1800, initials: bool =
                         first = m.group(1)   # TLC writes the initial state first
                     if "style = filled" in line:
                         inits.append((m.group(1), line))
+                    if labels:
+                        texts[m.group(1)] = line
                     adj.setdefault(m.group(1), [])
         if first is None:
             raise tlc.TLCError("empty graph for %s" % module)
+        if labels:
+            return inits, adj, texts
         if initials:
             return inits, adj, nodes
         return first, adj, nodes
@@ -139,3 +144,31 @@ def cached_words(module: str, cfg_text: str, server: Set[str]) -> List[Tuple[str
     json.dump(out, open(tmp, "w"))
     os.replace(tmp, path)
     return out
+
+
+def edge_words(first: str, adj: Dict[str, List[Tuple[str, str]]], max_len: int = 60) -> List[List[Tuple[str, str]]]:
+    """For designs without silent server steps (every action is a stimulus that includes the server's reaction):
+    one word per edge of the graph - the shortest word to its source state followed by the edge - as
+    [(action label, target node), ...]; proper prefixes dropped."""
+    word_of: Dict[str, List[Tuple[str, str]]] = {first: []}
+    queue: deque = deque([first])
+    words: List[List[Tuple[str, str]]] = []
+    while queue:
+        n = queue.popleft()
+        w = word_of[n]
+        if len(w) >= max_len:
+            continue
+        for (a, t) in sorted(set(adj[n])):
+            if t == n:
+                continue
+            words.append(w + [(a, t)])
+            if t not in word_of:
+                word_of[t] = w + [(a, t)]
+                queue.append(t)
+    keyed = sorted(set(tuple(w) for w in words))
+    keep = []
+    for i, w in enumerate(keyed):
+        nxt = keyed[i + 1] if i + 1 < len(keyed) else ()
+        if not (len(nxt) > len(w) and nxt[: len(w)] == w):
+            keep.append(list(w))
+    return keep
